@@ -576,6 +576,83 @@ mod h {
         kani::cover!(which == 4, "COV:C10.codegen.fdiv_reached");
     }
 
+    // ----------------------------------------------------------------- memory access
+    /// C02 ("constructor arguments and field writes write exactly the component the source names",
+    /// "reading a component yields the value last written"): the Write / Read / Offset / Copy arms
+    /// touch exactly the addressed bytes: one store of the operand's value at the operand address,
+    /// one load of exactly the width of the LIR type, base + offset for every u32 offset, one copy
+    /// of exactly `size` bytes from source to destination.
+    #[kani::proof]
+    fn c02_k5_write_stores_the_value_at_the_address() {
+        let ty = any_type();
+        let (a, p): (u64, u64) = (kani::any(), kani::any());
+        let mut m = new_module();
+        let (mut g, na, _nb) = setup(&mut m, ty, a, 0);
+        // tmp3: a pointer
+        let vp = g.builder.declare_var(I64);
+        let np = g.builder.push(I64, Kind::Input, p);
+        g.builder.def_var(vp, np);
+        g.module.variable_map.insert(var(3), (vp, I64));
+        g.arm_write(&place(3), &place(0));
+        assert!(g.builder.n_effects == 1 && g.builder.effect == Some(Effect::Store { val: na, addr: np, offset: 0 }), "OBL:C02.codegen.write.one_store_of_the_value_at_the_address");
+        assert!(!g.builder.ill_typed && g.builder.n_terms == 0, "OBL:C02.codegen.write.well_typed_and_nothing_else");
+        kani::cover!(ty == F32, "COV:C02.codegen.write_f32_reached");
+    }
+
+    #[kani::proof]
+    fn c02_k5_read_loads_exactly_the_width_of_the_type() {
+        let t = any_irtype();
+        let p: u64 = kani::any();
+        let mut m = new_module();
+        let (mut g, np, _nb) = setup(&mut m, I64, p, 0);
+        g.arm_read(&var(2), &place(0), &t);
+        let o = outcome(&g);
+        let want = g.module.cranelift_type(&t);
+        assert!(o.node.kind == Kind::Load(np, 0) && o.node.ty == want && want.bits() as usize == t.bytes() * 8, "OBL:C02.codegen.read.one_load_of_the_width_of_the_type_at_the_address");
+        assert!(o.declared_ty == want && o.defs == 1 && o.inputs_untouched && !g.builder.ill_typed && g.builder.n_effects == 0, "OBL:C02.codegen.read.result_defined_once_with_that_type");
+        kani::cover!(t == IrType::U16, "COV:C02.codegen.read_u16_reached");
+    }
+
+    #[kani::proof]
+    fn c02_k5_offset_adds_exactly_the_offset() {
+        let p: u64 = kani::any();
+        let off: u32 = kani::any();
+        let mut m = new_module();
+        let (mut g, _np, _nb) = setup_eval(&mut m, I64, p, 0, true);
+        g.arm_offset(&var(2), &place(0), &off);
+        let o = outcome(&g);
+        assert!(o.node.ty == I64 && o.node.bits == p.wrapping_add(off as u64), "OBL:C02.codegen.offset.is_base_plus_offset_for_every_u32_offset");
+        assert!(o.declared_ty == I64 && o.defs == 1 && o.inputs_untouched && !g.builder.ill_typed && g.builder.n_effects == 0, "OBL:C02.codegen.offset.pointer_result_defined_once");
+        kani::cover!(off > 0x7fff_ffff, "COV:C02.codegen.offset_above_i32_max_reached");
+    }
+
+    #[kani::proof]
+    fn c02_k5_copy_copies_exactly_size_bytes() {
+        let (p, q): (u64, u64) = (kani::any(), kani::any());
+        let size: u32 = kani::any();
+        let mut m = new_module();
+        let (mut g, np, nq) = setup(&mut m, I64, p, q);
+        g.arm_copy(&place(0), &place(1), &size);
+        let ok = match g.builder.effect {
+            Some(Effect::MemCopy { dest, src, size: s, .. }) => dest == np && src == nq && s == size as u64,
+            _ => false,
+        };
+        assert!(g.builder.n_effects == 1 && ok, "OBL:C02.codegen.copy.one_copy_of_exactly_size_bytes_from_source_to_destination");
+        assert!(!g.builder.ill_typed && g.builder.n_terms == 0, "OBL:C02.codegen.copy.well_typed_and_nothing_else");
+        kani::cover!(size == 3, "COV:C02.codegen.copy_three_bytes_reached");
+    }
+
+    #[kani::proof]
+    fn canary_c02_k5_memory() {
+        let p: u64 = kani::any();
+        let off: u32 = kani::any();
+        let mut m = new_module();
+        let (mut g, _np, _nb) = setup_eval(&mut m, I64, p, 0, true);
+        g.arm_offset(&var(2), &place(0), &off);
+        let o = outcome(&g);
+        assert!(o.node.bits == p, "CANARY:C02.codegen.offset_ignored");
+    }
+
     // ----------------------------------------------------------------- control transfer
     /// C01 (match / if / while): the Switch arm sends control to the block of the branch whose
     /// index EQUALS the examined value and to the default block for every other value - for every
